@@ -22,7 +22,9 @@ MUTANTS += [
     ('helix closing point handedness', [('mininec.Helix.__init__', "        a = s * (abs (length) % abs (turnlen)) / abs (turnlen) * 2 * np.pi", "        a = (abs (length) % abs (turnlen)) / abs (turnlen) * 2 * np.pi")], ['closing']),
     ('transformations applied unsorted', [('mininec.main', "for t in sorted (geo_transforms, key = lambda x: x [0]):", "for t in geo_transforms:")], ['ORDER.main']),
     ('transformations sorted by the tag', [('mininec.main', "for t in sorted (geo_transforms, key = lambda x: x [0]):", "for t in sorted (geo_transforms, key = lambda x: x [3] or 0):")], ['ORDER.main']),
+    ('rotation assembled in a loop on one scratch matrix', [('mininec.Rotation_Matrix.__init__', "        self.m = rot_z @ rot_y @ rot_x", "        rot = np.eye (3)\n        self.m = np.eye (3)\n        for k, r in enumerate ((rot_x, rot_y, rot_z)):\n            i = (k + 1) % 3\n            rot [i] = r [i]\n            self.m = rot @ self.m")], ['loop-scratch']),
 ]
 REFACTORS = [
     ('equal segments loop variable renamed', [(W + 'compute_equal_segments', "        for i in range (self.n_segments):\n            s1 = seg + (i + 1) * dirvec * seg_len", "        for k in range (self.n_segments):\n            s1 = seg + (k + 1) * dirvec * seg_len")]),
+    ('rotation assembled in a loop, fresh matrix per axis', [('mininec.Rotation_Matrix.__init__', "        self.m = rot_z @ rot_y @ rot_x", "        self.m = np.eye (3)\n        for r in (rot_x, rot_y, rot_z):\n            rot = np.eye (3)\n            for i in range (3):\n                rot [i] = r [i]\n            self.m = rot @ self.m")]),
 ]
